@@ -2,7 +2,7 @@
 import itertools
 
 from .. import instrument
-from ..common import derive_rng, fp, exc_origin, mask
+from ..common import derive_rng, fp, exc_origin, mask, norm
 from ..rtlil import parse as P, eval as E
 
 PROPERTY = "C03"
@@ -98,7 +98,8 @@ def gen_design(rng, max_wrappers=3):
             parts.append({"lo": lo, "hi": hi, "mod": mod, "dom": dom, "kind": rng.choice(["inc", "load", "xor"]),
                           "cond": rng.choice([None, None, rng.randrange(nctrl)])})
         if parts:
-            design["regs"].append({"w": w, "init": rng.getrandbits(w), "reset_less": rng.random() < 0.25, "parts": parts})
+            design["regs"].append({"w": w, "init": rng.getrandbits(w), "reset_less": rng.random() < 0.25, "parts": parts,
+                                   "signed": rng.random() < 0.35})
     for r in range(rng.choice([0, 0, 1, 2])):
         # a four-state FSM placed in a domain with m.FSM(domain=...): its state register is a 2-bit counter
         mod = rng.randrange(nmod)
@@ -164,7 +165,11 @@ def build(design):
                             with m.If(b.ctrl[p["cond"]]):
                                 m.next = f"S{(k + 1) % 4}"
             continue
-        sig = Signal(rg["w"], name=f"r{r}", init=rg["init"], reset_less=rg["reset_less"])
+        if rg.get("signed"):
+            from amaranth.hdl import Shape
+            sig = Signal(Shape(rg["w"], True), name=f"r{r}", init=norm(rg["init"], rg["w"], True), reset_less=rg["reset_less"])
+        else:
+            sig = Signal(rg["w"], name=f"r{r}", init=rg["init"], reset_less=rg["reset_less"])
         b.regs.append(sig)
         for p in rg["parts"]:
             tgt = sig[p["lo"]:p["hi"]]
@@ -398,6 +403,12 @@ def cosim(design, events, out, use_rtlil=True):
                 sv = ctx.get(sig)
                 mv = ref.regs[r]
                 out["evaluations"] += 1
+                if design["regs"][r].get("signed"):
+                    # (a signed register split between drivers: the value read must lie in the signal's range)
+                    if not (-(1 << (len(sig) - 1)) <= sv < (1 << (len(sig) - 1))):
+                        V("signed-register-read-outside-its-range", events=events[:n + 1], step=n, register=r, simulator=sv, width=len(sig))
+                        return False
+                    sv &= mask(len(sig))
                 if sv != mv:
                     rg = design["regs"][r]
                     kinds = sorted({("reset-less:" if rg["reset_less"] else "") + ref.dom[real]["reset"] for (rr, p, real, layers) in ref.parts if rr == r})
